@@ -162,11 +162,31 @@ func addScrubFieldsToSelectionSet(ctx *PlanningContext, selectionSet ast.Selecti
 func addSelectionSetToSanitizedResult(s ast.SelectionSet, ss ...ast.Selection) ast.SelectionSet {
 	ss = lo.Filter(ss, func(sel ast.Selection, i int) bool {
 		f, ok := sel.(*ast.Field)
-		if ok && selectionSetHasFieldNamed(s, f.Alias) {
+		if ok && selectionSetHasFieldWithAlias(s, responseKey(f)) {
 			return false
 		}
 		return true
 
 	})
 	return append(s, ss...)
+}
+
+// selectionSetHasFieldWithAlias reports whether a field with the given response key is already selected
+func selectionSetHasFieldWithAlias(ss []ast.Selection, alias string) bool {
+	for _, selection := range ss {
+		field, ok := selection.(*ast.Field)
+		if ok && responseKey(field) == alias {
+			return true
+		}
+	}
+	return false
+}
+
+// responseKey is the key of the field in the response: its alias, or its name
+// (helper fields added by the planner have no alias set)
+func responseKey(field *ast.Field) string {
+	if field.Alias != "" {
+		return field.Alias
+	}
+	return field.Name
 }
